@@ -39,6 +39,7 @@ type group struct {
 	Quick, Thorough []shape
 	Lead            []string
 	ThoroughExtra   [][][]string // whole-package operations against each other (~140k executions)
+	Prom            bool         // the Prometheus exporter is enabled (--prometheus): every update also goes to the exported series
 }
 
 var groups = []group{
@@ -57,6 +58,9 @@ var groups = []group{
 		Quick: []shape{{1, 2}, {2, 1}, {2, 2}, {3, 1}}, Thorough: []shape{{1, 3}, {2, 1}, {2, 2}, {3, 1}, {2, 3}, {3, 2}}},
 	{Name: "gauges", Alphabet: []string{"arch+", "arch-", "arch.reset", "post+", "post-", "post.reset"},
 		Quick: []shape{{1, 2}, {2, 1}, {2, 2}}, Thorough: []shape{{1, 3}, {2, 1}, {2, 2}, {3, 1}, {2, 3}}},
+	// the same bookkeeping with the Prometheus exporter on, incl. status codes outside the exported classes
+	{Name: "export", Prom: true, Alphabet: []string{"crawl", "seed", "code200", "code999", "code101", "pre+", "pre-", "http.add10", "code.resetall"},
+		Quick: []shape{{1, 2}, {2, 1}}, Thorough: []shape{{1, 3}, {2, 1}, {2, 2}}},
 	{Name: "mixed", Alphabet: []string{"seed", "code404", "body.add10", "wait.add30", "arch+"}, Lead: []string{"Reset", "TUI"},
 		Quick: []shape{{1, 0}, {2, 2}}, Thorough: []shape{{1, 0}, {2, 2}, {2, 3}, {3, 1}},
 		ThoroughExtra: [][][]string{{{"Reset"}, {"TUI"}}}},
@@ -124,9 +128,9 @@ func allScenarios(tier string) []scenarioSpec {
 	return out
 }
 
-func freshStats() {
+func freshStats(prom bool) {
 	stats.VerifResetC17()
-	config.VerifSet(&config.Config{})
+	config.VerifSet(&config.Config{Prometheus: prom, Job: "verif-c17"})
 	if err := stats.Init(); err != nil {
 		panic(err)
 	}
@@ -138,7 +142,7 @@ func scenario(spec scenarioSpec) *vsched.Scenario {
 	var got obs
 	var lastSig string
 	sc := &vsched.Scenario{Name: spec.String()}
-	sc.Setup = func(x *vsched.Exec) { freshStats(); got, lastSig = nil, "" }
+	sc.Setup = func(x *vsched.Exec) { freshStats(spec.Group == "export"); got, lastSig = nil, "" }
 	sc.Body = func() {
 		for _, prog := range spec.Programs {
 			prog := prog
@@ -475,7 +479,7 @@ func main() {
 	}, []string{
 		"scheduling points at every sync/atomic and sync.Mutex/Once operation of internal/pkg/stats (instrumented from the working tree); plain memory accesses are covered by the -race pass only",
 		"state cache: two prefixes with equal happens-before fingerprints have equal futures",
-		"Prometheus export disabled (config.Prometheus=false); virtual clock does not advance during a burst",
+		"Prometheus export disabled except in the group `export` (every update also goes to the exported series there; the exported values themselves are not read back); virtual clock does not advance during a burst",
 		"reset operations leave the totals untouched in the reference model (literal reading: totals = events that happened)",
 		"map iteration inside the package in sorted order (F=0)",
 	}, hkit.Violations())
